@@ -1286,6 +1286,13 @@ def check_C15(A: Analysis, tier):
                 if not a0 or not all(t == C(0) or (tag(t) == "callres" and t[1] == "tell") for t in a0):
                     rc.fail(ev.func, ev.node, f"text-mode seek to a computed offset ({showv(a0)[:60]}): characters are counted, bytes are addressed - with a non-ASCII "
                             "pid earlier in the list the rewrite starts inside a line and the one-pid-per-line format is destroyed", A.p.loc(ev.func, ev.node))
+            if ev.kind == "READ" and ev.prim in ("file.readlines", "file.read") and len(ev.paths) > 1 and ev.paths[1] \
+                    and any(c_.cls in ("CIDREFS", "PIDREFS") for c_ in primary(ev.classes[0])) \
+                    and not all(t == NONE or (is_const(t) and t[1] == -1) for t in ev.paths[1]):
+                rc.ob()
+                rc.inst(f"{ev.func.qual}:{ev.line} bounded {ev.prim}")
+                rc.fail(ev.func, ev.node, f"`{norm(ev.node)[:60]}` reads a reference file up to a size limit / hint ({showv(ev.paths[1])[:40]}): a list longer than that is "
+                        "rewritten (or judged) from its first part only - the pids listed further down silently lose their entry", A.p.loc(ev.func, ev.node))
             if ev.kind == "WRITE" and ev.prim == "file.truncate" and "b" not in (ev.extra.get("mode") or "b"):
                 rc.ob()
                 rc.inst(f"{ev.func.qual}:{ev.line} truncate on a text-mode handle")
@@ -1427,10 +1434,66 @@ def _raw_ident(t, idents, under_hash=False):
     return False
 
 
+def _callee_of(A, f, c):
+    """the package function / method a call node denotes: self.m(..), Cls.m(..), func(..), Cls(..).m(..), v.m(..) with v = Cls(..)"""
+    fn = c.func
+    if isinstance(fn, ast.Name):
+        g = A.p.funcs.get(fn.id)
+        return g if g is not None and "." not in fn.id else None
+    if isinstance(fn, ast.Attribute):
+        v = fn.value
+        if isinstance(v, ast.Name) and v.id in ("self", "cls", f.cls or ""):
+            return A.p.method(f.cls, fn.attr) if f.cls else None
+        if isinstance(v, ast.Name) and v.id in A.p.classes:
+            return A.p.method(v.id, fn.attr)
+        if isinstance(v, ast.Call) and isinstance(v.func, ast.Name) and v.func.id in A.p.classes:
+            return A.p.method(v.func.id, fn.attr)
+        if isinstance(v, ast.Name):
+            ctors = [a.value.func.id for a in ast.walk(f.node) if isinstance(a, ast.Assign) and len(a.targets) == 1 and isinstance(a.targets[0], ast.Name)
+                     and a.targets[0].id == v.id and isinstance(a.value, ast.Call) and isinstance(a.value.func, ast.Name) and a.value.func.id in A.p.classes]
+            if len(set(ctors)) == 1:
+                return A.p.method(ctors[0], fn.attr)
+    return None
+
+
 def whole_line_rule(A, rule):
+    anchors = []
     for fq in (Q("_is_string_in_refs_file"), Q("_update_refs_file")):
-        f = A.p.func(fq)
-        idp = f.node.args.args[0 if f.is_static else 1].arg if fq.endswith("_is_string_in_refs_file") else "ref_id"
+        f0 = A.p.func(fq)
+        anchors.append((fq, f0, f0.node.args.args[0 if f0.is_static else 1].arg if fq.endswith("_is_string_in_refs_file") else "ref_id"))
+    for fq, f0, idp0 in anchors:
+        # the anchor and the helpers (methods of helper classes included) it hands the identifier on to
+        scope, todo = [], [(f0, idp0, 0)]
+        while todo:
+            g, var, depth = todo.pop()
+            if any(g is x and var == v_ for x, v_ in scope) or depth > 3:
+                continue
+            scope.append((g, var))
+            for c in ast.walk(g.node):
+                if not isinstance(c, ast.Call):
+                    continue
+                callee = _callee_of(A, g, c)
+                if callee is None or callee.qual in (a_[0] for a_ in anchors if a_[1] is not g):
+                    continue
+                params = [x.arg for x in callee.node.args.args]
+                if params and params[0] in ("self", "cls") and not callee.is_static:
+                    params = params[1:]
+                for i_, a_ in enumerate(c.args):
+                    if isinstance(a_, ast.Name) and a_.id == var and i_ < len(params):
+                        todo.append((callee, params[i_], depth + 1))
+                for k_ in c.keywords:
+                    if isinstance(k_.value, ast.Name) and k_.value.id == var and k_.arg:
+                        todo.append((callee, k_.arg, depth + 1))
+        found_total = 0
+        for f, idp in scope:
+            found_total += _whole_line_in(A, rule, fq, f, idp)
+        if found_total == 0:
+            rule.inst(f"{fq}: no comparison of a line with the identifier")
+            rule.fail(f0, "comparison with the identifier", f"{fq} no longer compares each stripped line with the identifier for equality", A.p.loc(f0, f0.node))
+
+
+def _whole_line_in(A, rule, fq, f, idp):
+    if True:
         # the identifier and every local computed from it (ref_line = ref_id + "\n", ...)
         ids = {idp}
         changed = True
@@ -1475,9 +1538,7 @@ def whole_line_rule(A, rule):
                 rule.ob()
                 rule.inst(f"{fq}: `{norm(n)}`")
                 rule.fail(f, n, f"identifier matched with .{n.func.attr}() instead of whole-line equality", A.p.loc(f, n))
-        if found == 0:
-            rule.inst(f"{fq}: no comparison of a line with the identifier")
-            rule.fail(f, "comparison with the identifier", f"{fq} no longer compares each stripped line with the identifier for equality", A.p.loc(f, f.node))
+        return found
 
 
 def glob_rule(A, rule):
